@@ -10,12 +10,16 @@ Model: `Gsu.Model.Dnum`, the mirror of util/dnum that `Drive/C27.lean` executes 
 Nat/Int arithmetic (repaired: String exponent (finding 14), ToInt64 limit (fixes/27), underflow
 check after the normalising shift (fixes/C27-new-underflow.patch)). Lemmas: `Gsu/Proofs/Dnum.lean`.
 
-What is proved are the building blocks of the precision bounds, each for ALL inputs; the
-composed statements `add_ulp`, `sub_ulp`, `mul_ulp`, `div_ulp` (error ≤ one unit of the 16th digit
-of max(|x|,|y|,|result|) resp. of the result) and `string_roundtrip` are NOT proved — they are
-checked on every run by the exact-rational direct oracles of harness/c27. Hence `_partial`.
+Proved for ALL inputs (Gsu/Proofs/Dnum2, Dnum3 integer level; DnumQ, DnumQ2, DnumQ3 over ℚ):
+`compare_exact`, `new_round` (all coefficients with c + 5 < 2^64), `add_ulp`, `sub_ulp`, `mul_ulp`,
+`div_ulp` on the exact rational values `val d = sign·coef·10^(exp−16)`, with overflow and underflow
+clauses. Three statements of the property turned out FALSE of the code and have counter-witnesses
+(all reproduced with the Go code): half-ulp rounding of 18–20 digit coefficients
+(`new_half_ulp_counter`, true bound 5/9), premature underflow of Mul/Div
+(`mul_premature_underflow_counter`, `div_premature_underflow_counter`), uint64 wrap in New
+(`new_wrap_counter`).
 -/
-import Gsu.Proofs.Dnum
+import Gsu.Proofs.DnumQ4
 namespace Gsu.Props.C27
 open Gsu.Dnum Gsu.Num
 
@@ -34,42 +38,187 @@ theorem compare_total_preorder (x y z : Dnum) :
     (Dnum.compare x y ≤ 0 → Dnum.compare y z ≤ 0 → Dnum.compare x z ≤ 0) :=
   ⟨Dnum.compare_antisymm x y, Dnum.compare_trans x y z⟩
 
-/-- new_round, part 1: a coefficient of at most 16 digits is only shifted — the value is
-unchanged and the result is normalised (exponent range −113 … 127 so that the shift cannot
-underflow). -/
-theorem new_round_exact_partial (sign : Int) (c : Nat) (e : Int) (hs : sign = 1 ∨ sign = -1)
-    (hc0 : 0 < c) (hc : c < 10 ^ 16) (he1 : -113 ≤ e) (he2 : e ≤ 127) :
-    ∃ p : Nat, new sign c e = ⟨c * 10 ^ p, sign, e - p⟩ ∧ WF (new sign c e) :=
-  Dnum.new_exact sign c e hs hc0 hc he1 he2
+/-- new_round — FULL. `New(sign, c, e)` for a finite sign, `0 < c`, `c + 5 < 2^64` (every
+coefficient of up to 19 digits and the 20 digit ones up to 18446744073709551610) and `e ≥ −128`,
+with `v = ±c·10^(e−16)` the exact value of the arguments:
+* the result is infinity only if `|v|` exceeds the largest finite decimal (`≥ 10^127` when `c` has
+  at most 17 digits), and then it is the infinity of that sign;
+* the result is zero only if `c` has at most 16 digits and `|v| < 10^−129`, the smallest positive
+  normalised decimal (this includes the REPAIRED underflow after the normalising shift);
+* otherwise the result is finite, normalised (16 digit coefficient, exponent in −128…127), has the
+  sign `sign`, and `|result − v| ≤ 5/9 ulp` (repeated half-up rounding of 18–20 digit
+  coefficients; `new_half_ulp_counter` shows 1/2 is exceeded), `≤ 1/2 ulp` when `c` has at most 17
+  digits (all coefficients that Add/Sub/Div produce), exact when `c` has at most 16 digits;
+  the exponent is `≥ e − 15`, `≥ e` for `c ≥ 10^15`, `≥ e + 1` for `c ≥ 10^16`.
+Outside these hypotheses: `e < −128` gives zero (`new_below_min`), `c ≥ 2^64 − 5` wraps around in
+uint64 (`new_wrap_counter`). -/
+theorem new_round (sign : Int) (c : Nat) (e : Int) (hs : sign = 1 ∨ sign = -1)
+    (hc0 : 0 < c) (hc : c + 5 < 2 ^ 64) (he : -128 ≤ e) :
+    (isInf (new sign c e) = true →
+        new sign c e = inf sign ∧ maxFinite < |(sign : ℚ) * (c : ℚ) * (10 : ℚ) ^ (e - 16)| ∧
+        (c + 5 < 10 ^ 17 → (10 : ℚ) ^ (127 : Int) ≤ |(sign : ℚ) * (c : ℚ) * (10 : ℚ) ^ (e - 16)|)) ∧
+    (new sign c e = zero → c ≤ coefMax ∧ |(sign : ℚ) * (c : ℚ) * (10 : ℚ) ^ (e - 16)| < minPos) ∧
+    (isInf (new sign c e) = false → new sign c e ≠ zero →
+        FinN (new sign c e) ∧ (new sign c e).sign = sign ∧
+        9 * |val (new sign c e) - (sign : ℚ) * (c : ℚ) * (10 : ℚ) ^ (e - 16)| ≤ 5 * ulp (new sign c e) ∧
+        (c < 10 ^ 17 →
+          2 * |val (new sign c e) - (sign : ℚ) * (c : ℚ) * (10 : ℚ) ^ (e - 16)| ≤ ulp (new sign c e)) ∧
+        (c < 10 ^ 16 → val (new sign c e) = (sign : ℚ) * (c : ℚ) * (10 : ℚ) ^ (e - 16)) ∧
+        e - 15 ≤ (new sign c e).exp ∧ (10 ^ 15 ≤ c → e ≤ (new sign c e).exp) ∧
+        (c > coefMax → e + 1 ≤ (new sign c e).exp)) :=
+  Dnum.new_round_q sign c e hs hc0 (by simp only [two64]; omega) he
 
-example : (0 : Nat) < 12345 ∧ 12345 < 10 ^ 16 := by decide
+example : (1 : Int) = 1 ∨ (1 : Int) = -1 := Or.inl rfl
+example : (0 : Nat) < 18446744073709551610 ∧ 18446744073709551610 + 5 < 2 ^ 64 := by decide
 
-/-- new_round, part 2: a 17 digit coefficient (what Add/Sub and most of Div produce) is rounded
-half-up by one digit: `|10·c' − c| ≤ 5`, exponent + 1; a carry to 10^16 renormalises exactly.
-Missing for the full `new_round`: 18–20 digit coefficients (repeated half-up rounding; bound 5/9 ulp,
-checked by the oracle), overflow → inf and underflow → 0 as separate statements. -/
-theorem new_round17_partial (sign : Int) (c : Nat) (e : Int) (hs : sign = 1 ∨ sign = -1)
-    (hc1 : 10 ^ 16 ≤ c) (hc2 : c < 10 ^ 17) (he1 : -128 ≤ e) (he2 : e ≤ 124) :
-    ∃ c' : Nat, (10 * c' ≤ c + 5 ∧ c < 10 * c' + 5 + 1) ∧
-      (new sign c e = ⟨c', sign, e + 1⟩ ∨ (c' = 10 ^ 16 ∧ new sign c e = ⟨10 ^ 15, sign, e + 2⟩)) :=
-  Dnum.new_round17 sign c e hs hc1 hc2 he1 he2
+/-- new_round, integer form (no rationals): there are `k` (digits rounded away, ≤ 5), `p`
+(normalising shift, ≤ 15; one of the two is 0) and a 16 digit `c'` with
+`|c'·10^k − c·10^p| ≤ 5·(10^k − 1)/9`, at most `10^k/2` when `c < 10^17`, and the result is
+zero / infinity / `⟨c', sign, e + k − p⟩` according to the final exponent. Subsumes the former
+`new_round_exact_partial` (k = 0: `c' = c·10^p`) and `new_round17_partial` (k = 1, or 2 on carry). -/
+theorem new_round_int (sign : Int) (c : Nat) (e : Int) (hs : sign = 1 ∨ sign = -1)
+    (hc0 : 0 < c) (hc : c + 5 < 2 ^ 64) (he : -128 ≤ e) :
+    ∃ k p c' : Nat, (k = 0 ∨ p = 0) ∧ k ≤ 5 ∧ p ≤ 15 ∧ 10 ^ 15 ≤ c' ∧ c' ≤ coefMax ∧
+      9 * (c * 10 ^ p) ≤ 9 * (c' * 10 ^ k) + 5 * (10 ^ k - 1) ∧
+      9 * (c' * 10 ^ k) ≤ 9 * (c * 10 ^ p) + 5 * (10 ^ k - 1) ∧
+      (0 < k → 90 * c + 5 * 10 ^ k ≥ 9 * 10 ^ 16 * 10 ^ k + 50) ∧
+      (c < 10 ^ 17 → 2 * (c * 10 ^ p) ≤ 2 * (c' * 10 ^ k) + 10 ^ k ∧
+                     2 * (c' * 10 ^ k) ≤ 2 * (c * 10 ^ p) + 10 ^ k) ∧
+      (c ≤ coefMax ↔ k = 0) ∧ (10 ^ 15 ≤ c → p = 0) ∧
+      new sign c e =
+        (if e + (k : Int) - (p : Int) < expMin then zero
+         else if e + (k : Int) - (p : Int) > expMax then inf sign
+         else ⟨c', sign, e + (k : Int) - (p : Int)⟩) :=
+  Dnum.new_spec sign c e hs hc0 (by simp only [two64]; omega) (by simp only [expMin]; omega)
 
-example : (10 : Nat) ^ 16 ≤ 19999999999999998 ∧ 19999999999999998 < 10 ^ 17 := by decide
+/-- an exponent below −128 gives zero whatever the coefficient (also when the value is
+representable after rounding, e.g. New(+1, 25·10^16, −129) = 0.25e-126: premature underflow) -/
+theorem new_below_min (sign : Int) (c : Nat) (e : Int) (he : e < -128) : new sign c e = zero :=
+  Dnum.new_below sign c e (by simp only [expMin]; omega)
+
+/-- COUNTER-WITNESS to "|error| ≤ 1/2 ulp" for 18 digit coefficients: 100000000000000045 is
+rounded twice half-up (…045 → …05 → …1) to 1000000000000001e2, off by 55 > 50 = 1/2 ulp
+(the nearest 16 digit value is 1000000000000000e2). Same in the Go code. -/
+theorem new_half_ulp_counter :
+    new 1 100000000000000045 0 = ⟨1000000000000001, 1, 2⟩ ∧
+    2 * (1000000000000001 * 10 ^ 2 - 100000000000000045) > 10 ^ 2 := by decide
+
+/-- COUNTER-WITNESS (defect of `New`, reproduced in Go: `dnum.New(1, 18446744073709551615, 0)` is
+`{coef 0, sign +1, exp 1}`): for `c ≥ 2^64 − 5` the `coef + 5` of the rounding loop wraps around
+in uint64 and the result is a non-normalised "positive" number with coefficient 0. Not reachable
+through Add/Sub/Mul/Div/FromInt/FromStr (their coefficients are below 2·10^18). -/
+theorem new_wrap_counter :
+    new 1 18446744073709551615 0 = ⟨0, 1, 1⟩ ∧ new 1 18446744073709551611 0 = ⟨0, 1, 1⟩ ∧
+    new 1 18446744073709551610 0 = ⟨1844674407370955, 1, 4⟩ := by decide
 
 /-- underflow goes to zero, overflow to infinity (concrete boundary cases of the repaired New) -/
 theorem new_underflow_overflow :
     new 1 7 (-128) = zero ∧ new 1 1000000000000000 (-129) = zero ∧
     new 1 99999999999999995 126 = posInf ∧ new (-1) 99999999999999995 126 = negInf := by decide
 
-/-- add_ulp / sub_ulp, the rounding step of the alignment: `(c + P/2) / P` is within half a unit -/
-theorem add_align_half_partial (c e : Nat) (h1 : 1 ≤ e) (h2 : e < 19) :
+/-- add_ulp — FULL (finite normalised operands; zero and infinite operands are returned / absorbed
+unchanged by `add`). With `s = x + y` the exact rational sum:
+* infinity only if `|s|` exceeds the largest finite decimal, with the sign of `s`;
+* zero only if `|s| ≤ 1/2` unit of the 16th digit of the larger operand (cancellation) or
+  `|s| < 10^−129` (underflow);
+* otherwise the result is finite normalised and `|result − s| ≤` one unit of the 16th digit of
+  max(|x|, |y|, |result|) (`ulpE e = 10^(e−16)`), including the branch where the smaller operand
+  is negligible (exponents differ by more than 15). -/
+theorem add_ulp (x y : Dnum) (hx : FinN x) (hy : FinN y) :
+    (isInf (add x y) = true →
+        (add x y = posInf ∧ maxFinite < val x + val y) ∨
+        (add x y = negInf ∧ val x + val y < -maxFinite)) ∧
+    (add x y = zero →
+        2 * |val x + val y| ≤ ulpE (max x.exp y.exp) ∨ |val x + val y| < minPos) ∧
+    (isInf (add x y) = false → add x y ≠ zero →
+        FinN (add x y) ∧
+        |val (add x y) - (val x + val y)| ≤ ulpE (max (max x.exp y.exp) (add x y).exp)) :=
+  Dnum.add_ulp_q x y hx hy
+
+example : FinN ⟨1500000000000000, 1, 1⟩ ∧ FinN ⟨9999999999999999, -1, -14⟩ := by
+  simp only [FinN, WF]; decide
+
+/-- sub_ulp — FULL: the same for `Sub(x, y) = Add(x, Neg(y))` and the exact difference. -/
+theorem sub_ulp (x y : Dnum) (hx : FinN x) (hy : FinN y) :
+    (isInf (sub x y) = true →
+        (sub x y = posInf ∧ maxFinite < val x - val y) ∨
+        (sub x y = negInf ∧ val x - val y < -maxFinite)) ∧
+    (sub x y = zero →
+        2 * |val x - val y| ≤ ulpE (max x.exp y.exp) ∨ |val x - val y| < minPos) ∧
+    (isInf (sub x y) = false → sub x y ≠ zero →
+        FinN (sub x y) ∧
+        |val (sub x y) - (val x - val y)| ≤ ulpE (max (max x.exp y.exp) (sub x y).exp)) :=
+  Dnum.sub_ulp_q x y hx hy
+
+/-- zero and infinite operands of Add (all remaining cases of `add`) -/
+theorem add_special (x y : Dnum) :
+    (x.sign = 0 → add x y = y) ∧ (x.sign ≠ 0 → y.sign = 0 → add x y = x) ∧
+    (x.sign ≠ 0 → y.sign ≠ 0 → isInf x = true → add x y = if y.sign = -x.sign then zero else x) ∧
+    (x.sign ≠ 0 → y.sign ≠ 0 → isInf x = false → isInf y = true → add x y = y) := by
+  refine ⟨fun h => ?_, fun h1 h2 => ?_, fun h1 h2 h3 => ?_, fun h1 h2 h3 h4 => ?_⟩ <;>
+    simp_all [add, signZero]
+
+/-- mul_ulp — FULL (finite normalised operands). With `p = x·y` the exact product:
+* infinity only if `|p|` exceeds the largest finite decimal, with the sign of `p`;
+* zero only if `|p| < 10^−127` — NOT `10^−129`: `New` is called with exponent
+  `x.exp + y.exp − 2` and a 17–18 digit coefficient and returns zero when that exponent is below
+  −128 although rounding would bring it back into range (`mul_premature_underflow_counter`);
+* otherwise the result is finite normalised and within one unit of ITS 16th digit of `p`
+  (truncation of the 9/7 split < 0.2 ulp + rounding ≤ 5/9 ulp). -/
+theorem mul_ulp (x y : Dnum) (hx : FinN x) (hy : FinN y) :
+    (isInf (mul x y) = true →
+        (mul x y = posInf ∧ maxFinite < val x * val y) ∨
+        (mul x y = negInf ∧ val x * val y < -maxFinite)) ∧
+    (mul x y = zero → |val x * val y| < (10 : ℚ) ^ (-127 : Int)) ∧
+    (isInf (mul x y) = false → mul x y ≠ zero →
+        FinN (mul x y) ∧ |val (mul x y) - val x * val y| ≤ ulp (mul x y)) :=
+  Dnum.mul_ulp_q x y hx hy
+
+/-- COUNTER-WITNESS to "underflow to zero only below the smallest decimal" (reproduced in Go:
+`Mul(5e-64, 5e-65) = 0`): the exact product 2.5e-128 is a normalised decimal. -/
+theorem mul_premature_underflow_counter :
+    FinN ⟨5000000000000000, 1, -63⟩ ∧ FinN ⟨5000000000000000, 1, -64⟩ ∧
+    FinN ⟨2500000000000000, 1, -127⟩ ∧
+    mul ⟨5000000000000000, 1, -63⟩ ⟨5000000000000000, 1, -64⟩ = zero ∧
+    val ⟨5000000000000000, 1, -63⟩ * val ⟨5000000000000000, 1, -64⟩
+      = val ⟨2500000000000000, 1, -127⟩ :=
+  Dnum.mul_premature_underflow
+
+/-- div_ulp — FULL for the model's `div`, whose coefficient is `div128 a b = a·10^16 / b` (the
+div128 EQUATION: it is the model's definition of div128, tied to div128.go by the in-package
+differential suite; see `divide128_spec` below for the mirrored algorithm). With `q = x / y`:
+* infinity only if `|q|` exceeds the largest finite decimal, with the sign of `q`;
+* zero only if `|q| < 10^−128` (`x.exp − y.exp < −128`; premature by one decade when the 17 digit
+  quotient would round back into range, `div_premature_underflow_counter`);
+* otherwise finite normalised and within one unit of the 16th digit of the result. -/
+theorem div_ulp (x y : Dnum) (hx : FinN x) (hy : FinN y) :
+    (isInf (div x y) = true →
+        (div x y = posInf ∧ maxFinite < val x / val y) ∨
+        (div x y = negInf ∧ val x / val y < -maxFinite)) ∧
+    (div x y = zero → |val x / val y| < (10 : ℚ) ^ (-128 : Int)) ∧
+    (isInf (div x y) = false → div x y ≠ zero →
+        FinN (div x y) ∧ |val (div x y) - val x / val y| ≤ ulp (div x y)) :=
+  Dnum.div_ulp_q x y hx hy
+
+/-- COUNTER-WITNESS (reproduced in Go: `Div(5e-65, 2e64) = 0`): the exact quotient 2.5e-129 is a
+normalised decimal (0.25e-128). -/
+theorem div_premature_underflow_counter :
+    FinN ⟨5000000000000000, 1, -64⟩ ∧ FinN ⟨2000000000000000, 1, 65⟩ ∧
+    FinN ⟨2500000000000000, 1, -128⟩ ∧
+    div ⟨5000000000000000, 1, -64⟩ ⟨2000000000000000, 1, 65⟩ = zero ∧
+    val ⟨5000000000000000, 1, -64⟩ / val ⟨2000000000000000, 1, 65⟩
+      = val ⟨2500000000000000, 1, -128⟩ :=
+  Dnum.div_premature_underflow
+
+/-- building block of add_ulp: the alignment `(c + P/2) / P` is within half a unit -/
+theorem add_align_half (c e : Nat) (h1 : 1 ≤ e) (h2 : e < 19) :
     (c + halfpow10 e) / pow10 e * pow10 e ≤ c + halfpow10 e ∧
     c < (c + halfpow10 e) / pow10 e * pow10 e + halfpow10 e + 1 :=
   Dnum.round_half c (pow10 e) (halfpow10 e) (Dnum.halfpow10_spec e h1 h2).1 (Dnum.halfpow10_spec e h1 h2).2
 
-/-- mul_ulp, the truncation step: the 9/7-digit split product (dropping `xlo·ylo` and the low part
+/-- building block of mul_ulp: the 9/7-digit split product (dropping `xlo·ylo` and the low part
 of the cross terms) is below the exact product by less than two units of its own last digit. -/
-theorem mul_trunc_partial (xc yc : Nat) :
+theorem mul_trunc (xc yc : Nat) :
     mulCoef xc yc * 10 ^ 14 ≤ xc * yc ∧ xc * yc < (mulCoef xc yc + 2) * 10 ^ 14 :=
   Dnum.mul_trunc xc yc
 
@@ -78,9 +227,8 @@ theorem mul_uses_mulCoef (x y : Dnum) (h0 : x.sign * y.sign ≠ 0) (hx : isInf x
     mul x y = new (x.sign * y.sign) (mulCoef x.coef y.coef) (x.exp + y.exp - 2) := by
   simp [mul, mulCoef, h0, hx, hy, signZero]
 
-/-- div_ulp, CONDITIONAL on the div128 equation (the model's definition `a·10^16 / b`, tied to
-div128.go by the in-package differential suite): the coefficient is the floor quotient. -/
-theorem div_floor_partial (a b : Nat) (hb : 0 < b) :
+/-- building block of div_ulp: the model's div128 is the floor quotient -/
+theorem div_floor (a b : Nat) (hb : 0 < b) :
     div128 a b * b ≤ 10 ^ 16 * a ∧ 10 ^ 16 * a < (div128 a b + 1) * b :=
   Dnum.div_floor a b hb
 
